@@ -1,18 +1,13 @@
 /-
-C03, final form on the tokenizer model of the real tokenizer: the executable hypothesis `SafeRun` / `SafeG` of
-`chunk_invariant_partial` / `chain_chunk_invariant_partial` follows from a SYNTACTIC condition on the buffer the
-tokenizer sees at each cut (`synSafeEnd`, W5's Proofs/HtmlStream6.lean: the end of the buffer is not inside a comment /
-doctype / `<!…>` / `<?…>` / CDATA token cut by EOF and no raw-text context is pending; allowed: a token boundary, plain
-text, a held text containing `<`, a partial start / end tag) through W5's restart law `htmlTokenize_restart`.
-
-The buffer at a cut is `last_buffer ++ chunk` (its valid UTF-8 part): the held tail of the previous calls followed by
-the new chunk — by the restart law it ends in the same tokenizer context as the corresponding prefix of the body, which
-is the SafeCuts of DESIGN §5 (C03) evaluated where the code evaluates it.
+C03, final form on the tokenizer model of the real tokenizer: every tokenizer law of `Rio.C03.chunk_invariant` is
+discharged — `LosslessAll` (Proofs/FilterTok.lean, from C16), `TokValid` (W5, Proofs/HtmlStream4.lean), `TokValidS`,
+`CtxClosed` (W5, Proofs/HtmlStream8.lean), `RestartLaw` (W5, Proofs/HtmlStream9.lean: the restart law with a context, no
+safety hypothesis) — so the FULL chunk-invariance statement holds of the model with no hypothesis besides "the body and
+the configured values are valid UTF-8".
 -/
 import RioModel.Props.C03
-import RioModel.Proofs.HtmlStream6
-import RioModel.Proofs.FilterNoFail
-import RioModel.Props.C04
+import RioModel.Props.C04tok
+import RioModel.Proofs.HtmlStream9
 set_option linter.unusedSimpArgs false
 set_option linter.unusedVariables false
 
@@ -21,155 +16,64 @@ open Rio.Filter
 
 variable {D E : Type}
 
-/-- the syntactic condition at one cut: the valid part of `last_buffer ++ chunk` ends at a safe place -/
-def synCutB (L x : Bytes) : Bool :=
-  match utf8Split (L ++ x) with
-  | none => true
-  | some (a1, _) => synSafeEnd a1
-
-/-- **syntactically safe ⇒ safe for the splitting lemma** (W5's restart law) -/
-theorem safeCutT_of_syn (L x r : Bytes) (h : synCutB L x = true) : SafeCutT htmlTokenize L x r := by
-  intro a1 p1 h1
-  have hs : synSafeEnd a1 = true := by simpa [synCutB, h1] using h
-  have hv : V a1 := V_utf8Split h1
-  refine ⟨(htmlTokenize_restart a1 [] hv V_nil hs).2.2, ?_⟩
-  intro a' p' h2
-  have hv' : V a' := V_utf8Split h2
-  obtain ⟨k1, k2, _⟩ := htmlTokenize_restart a1 a' hv hv' hs
-  exact ⟨k1, k2⟩
-
-/-- every cut of the schedule is syntactically safe (nothing is required of the last chunk) -/
-def synSafeRunB (ev : Bytes → Bytes → Bool) (s : HtmlSt) : List Bytes → Bool
-  | [] => true
-  | [_] => true
-  | x :: y :: rest =>
-    synCutB s.last x &&
-      match filterHtml htmlTokenize ev s x with
-      | none => true
-      | some (s1, _) => synSafeRunB ev s1 (y :: rest)
-
-theorem safeRun_of_syn (ev : Bytes → Bytes → Bool) : ∀ (cs : List Bytes) (s : HtmlSt),
-    synSafeRunB ev s cs = true → SafeRun htmlTokenize ev s cs
-  | [], _, _ => trivial
-  | [_], _, _ => trivial
-  | x :: y :: rest, s, h => by
-    simp only [synSafeRunB, Bool.and_eq_true] at h
-    refine ⟨safeCutT_of_syn _ _ _ h.1, ?_⟩
-    cases hf : filterHtml htmlTokenize ev s x with
-    | none => trivial
-    | some r =>
-      obtain ⟨s1, o1⟩ := r
-      have := h.2
-      rw [hf] at this
-      exact safeRun_of_syn ev (y :: rest) s1 this
-
-/-- **C03 at syntactically safe cuts, one html filter, on the tokenizer model — no tokenizer hypothesis.**
-For every non-empty schedule of a body on which no call fails (valid UTF-8), if at every cut the buffer the tokenizer
-sees ends at a syntactically safe place, the concatenated output equals the output of the single chunk. -/
-theorem chunk_invariant_syntactic (ev : Bytes → Bytes → Bool) (codec : Codec D E)
-    (s : HtmlSt) (cs : List Bytes) (hne : cs ≠ []) (hsafe : synSafeRunB ev s cs = true)
-    (hok : seqRun htmlTokenize ev s cs ≠ none) :
-    ({ items := [.html s] } : Chain D E).run htmlTokenize ev codec cs =
-      ({ items := [.html s] } : Chain D E).run htmlTokenize ev codec [cs.flatten] :=
-  chunk_invariant_partial htmlTokenize ev codec s cs hne (safeRun_of_syn ev cs s hsafe) hok
-
-/-! ### chains -/
-
-def synStageSafeB (ev : Bytes → Bytes → Bool) : Stage D E → List Bytes → Bool
-  | .html s, pieces => synSafeRunB ev s pieces
-  | _, _ => true
-
-/-- every html stage of the chain is syntactically safe on the pieces it actually receives -/
-def synSafeGB (ev : Bytes → Bytes → Bool) (codec : Codec D E) : List (Stage D E) → List Bytes → Option Bytes → Bool
-  | [], _, _ => true
-  | st :: rest, ps, fin =>
-    synStageSafeB ev st (ps ++ fin.toList) &&
-      match stFeed htmlTokenize ev codec st ps with
-      | none => true
-      | some (st1, os) =>
-        match st1.endWith htmlTokenize ev codec fin with
-        | (_, none) => true
-        | (_, some nd) => synSafeGB ev codec rest (nonEmpty os) (optB nd)
-
-theorem safeG_of_syn (ev : Bytes → Bytes → Bool) (codec : Codec D E) :
-    ∀ (items : List (Stage D E)) (ps : List Bytes) (fin : Option Bytes),
-      synSafeGB ev codec items ps fin = true → SafeG htmlTokenize ev codec items ps fin
-  | [], _, _, _ => trivial
-  | st :: rest, ps, fin, h => by
-    simp only [synSafeGB, Bool.and_eq_true] at h
-    refine ⟨?_, ?_⟩
-    · cases st with
-      | html s => exact safeRun_of_syn ev _ s h.1
-      | text s => trivial
-      | decode d => trivial
-      | encode e => trivial
-    · cases hfe : stFeed htmlTokenize ev codec st ps with
-      | none => trivial
-      | some r =>
-        obtain ⟨st1, os⟩ := r
-        have h2 := h.2
-        simp only [hfe] at h2 ⊢
-        cases hw : st1.endWith htmlTokenize ev codec fin with
-        | mk st2 x =>
-          cases x with
-          | none => trivial
-          | some nd =>
-            simp only [hw] at h2 ⊢
-            exact safeG_of_syn ev codec rest _ _ h2
-
-/-- **C03 at syntactically safe cuts for chains of any number of html and text filters, on the tokenizer model.** -/
-theorem chain_chunk_invariant_syntactic (ev : Bytes → Bytes → Bool) (codec : Codec D E)
-    (items : List (Stage D E)) (hp : AllPlain items) (cs : List Bytes) (hne : cs ≠ [])
-    (hsafe : synSafeGB ev codec items cs none = true) (hsafe1 : synSafeGB ev codec items [cs.flatten] none = true)
-    (hok : runG htmlTokenize ev codec items cs none ≠ none)
-    (hok1 : runG htmlTokenize ev codec items [cs.flatten] none ≠ none) :
-    ({ items := items } : Chain D E).run htmlTokenize ev codec cs =
-      ({ items := items } : Chain D E).run htmlTokenize ev codec [cs.flatten] :=
-  chain_chunk_invariant_partial htmlTokenize ev codec items hp cs hne
-    (safeG_of_syn ev codec items cs none hsafe) (safeG_of_syn ev codec items [cs.flatten] none hsafe1) hok hok1
+/-- the restart law of the stream tokenizer of the model (W5) -/
+theorem tokenizer_restart : RestartLaw htmlTokenize := htmlTokenize_restartLaw
 
 /-- on a valid UTF-8 body no call of a plain chain with valid values fails, however the body is cut -/
 theorem no_call_fails (ev : Bytes → Bytes → Bool) (codec : Codec D E) (items : List (Stage D E)) (hd : Down items)
     (cs : List Bytes) (hv : V cs.flatten) : runG htmlTokenize ev codec items cs none ≠ none := by
-  obtain ⟨out, h, _⟩ := runG_ok htmlTokenize_lossless htmlTokenize_tokValid ev codec items cs none hd (by simpa using hv)
+  obtain ⟨out, h, _⟩ := runG_ok htmlTokenize_losslessAll Rio.C04.tokenizer_tokValid ev codec items cs none hd
+    (by simpa using hv)
   rw [h]; simp
 
-/-- **C03, the DESIGN statement on the tokenizer model.**  For the chain `FilterBodyAction::new` builds from any list
-of html and text filters whose values are valid UTF-8 (no `Content-Encoding`), every valid UTF-8 body and every way of
-cutting it into a non-empty list of chunks (empty chunks and cuts inside multi-byte characters included): if every cut
-is syntactically safe — for each html stage, at each cut between the pieces it receives, the buffer the tokenizer sees
-does not end inside a comment / doctype / `<!…>` / `<?…>` / CDATA token cut by EOF nor in a raw-text zone
-(`synSafeGB`, in the run on the schedule and in the single-chunk run) — the concatenated output is byte-identical to
-the output for the body delivered as one chunk.  No other hypothesis. -/
+/-- **C03, the DESIGN statement on the tokenizer model — FULL.**  For the chain `FilterBodyAction::new` builds from any
+list of html and text filters whose values are valid UTF-8 (no `Content-Encoding`), every selector oracle, every valid
+UTF-8 body and EVERY way of cutting it into chunks (empty chunks, no chunk at all, cuts inside multi-byte characters,
+tags, comments, declarations, CDATA sections and raw-text elements included): the concatenated output is byte-identical
+to the output for the body delivered as one chunk.  No hypothesis on the cuts, no tokenizer hypothesis, no no-failure
+hypothesis. -/
 theorem chunk_invariant_final (ev : Bytes → Bytes → Bool) (lower : String → String)
     (fs : List BodyFilter) (headers : List (String × String))
     (henc : headerValue lower Rio.Consts.filterHeaderContentEncoding headers = none)
-    (hval : ∀ f ∈ fs, V (Rio.C04.filterValue f))
-    (cs : List Bytes) (hne : cs ≠ []) (hbody : V cs.flatten)
-    (hsafe : synSafeGB ev noCodec (Chain.new noCodec lower fs headers).items cs none = true)
-    (hsafe1 : synSafeGB ev noCodec (Chain.new noCodec lower fs headers).items [cs.flatten] none = true) :
-    (Chain.new noCodec lower fs headers).run htmlTokenize ev noCodec cs =
-      (Chain.new noCodec lower fs headers).run htmlTokenize ev noCodec [cs.flatten] := by
-  rw [Rio.C04.new_plain noCodec lower fs headers henc] at hsafe hsafe1 ⊢
-  generalize headerValue lower Rio.Consts.filterHeaderContentType headers = ct at hsafe hsafe1 ⊢
-  have hdown : Down (fs.filterMap fun f => (Stage.new f ct : Option (Stage Unit Unit))) := by
-    intro st hst
-    simp only [List.mem_filterMap] at hst
-    obtain ⟨f, hf, hnew⟩ := hst
-    exact Rio.C04.stage_new_down f ct st (hval f hf) hnew
-  have hplain : AllPlain (fs.filterMap fun f => (Stage.new f ct : Option (Stage Unit Unit))) := by
-    intro st hst
-    have := hdown st hst
-    cases st <;> simp_all [DStage, isPlain]
-  exact chain_chunk_invariant_syntactic ev noCodec _ hplain cs hne hsafe hsafe1
-    (no_call_fails ev noCodec _ hdown cs hbody)
-    (no_call_fails ev noCodec _ hdown [cs.flatten] (by simpa using hbody))
+    (hval : ∀ f ∈ fs, V (Rio.C04.filterValue f)) :
+    ChunkInvariant htmlTokenize ev noCodec (Chain.new noCodec lower fs headers) :=
+  chunk_invariant htmlTokenize_losslessAll Rio.C04.tokenizer_tokValid htmlTokenize_restartLaw htmlStream_nil_nil
+    ev lower fs headers henc hval
 
-/-- non-vacuity: the schedule of `safe_example` (cuts inside a start tag, plain text, an end tag) is syntactically
-safe; the D4 witness is not -/
-theorem syntactic_examples :
-    synSafeRunB evalStandIn safeStage safeBody = true ∧
-    synSafeRunB evalStandIn (HtmlSt.new { kind := .prepend, cur := [112], content := [36] }) witnessChunks = false := by
+/-- the same, spelled out -/
+theorem chunk_invariant_final' (ev : Bytes → Bytes → Bool) (lower : String → String)
+    (fs : List BodyFilter) (headers : List (String × String))
+    (henc : headerValue lower Rio.Consts.filterHeaderContentEncoding headers = none)
+    (hval : ∀ f ∈ fs, V (Rio.C04.filterValue f))
+    (cs : List Bytes) (hbody : utf8Scan cs.flatten = .ok) :
+    (Chain.new noCodec lower fs headers).run htmlTokenize ev noCodec cs =
+      (Chain.new noCodec lower fs headers).run htmlTokenize ev noCodec [cs.flatten] :=
+  chunk_invariant_final ev lower fs headers henc hval cs hbody
+
+/-- one html stage in any reachable state (accepted context), every non-empty schedule of a stream on which no call
+fails -/
+theorem html_stage_chunk_invariant_final (ev : Bytes → Bytes → Bool) (codec : Codec D E)
+    (s : HtmlSt) (hc : Ctx s.ctx) (cs : List Bytes) (hne : cs ≠ []) (hok : seqRun htmlTokenize ev s cs ≠ none) :
+    ({ items := [.html s] } : Chain D E).run htmlTokenize ev codec cs =
+      ({ items := [.html s] } : Chain D E).run htmlTokenize ev codec [cs.flatten] :=
+  html_stage_chunk_invariant htmlTokenize ev codec htmlTokenize_restartLaw s hc cs hne hok
+
+/-- non-vacuity: a schedule that cuts inside a start tag, inside a raw-text element, inside a comment and inside an end
+tag; the filter acts (`$` is prepended in `<p>`), and both runs agree — by the theorem, not by evaluating the two runs -/
+def cutBody : List Bytes :=
+  [[60, 100, 105], [118, 62, 60, 115, 99, 114, 105, 112, 116, 62, 60, 112], [62, 60, 47, 115, 99, 114, 105, 112, 116, 62, 60, 33, 45],
+   [45, 60, 112, 62, 45, 45, 62, 60, 112, 62, 120, 60, 47], [112, 62, 60, 47, 100, 105, 118, 62]]
+
+theorem cut_example :
+    (Chain.new noCodec id [.html "prepend_child" [[100, 105, 118], [112]] none [36]] []).run htmlTokenize evalStandIn noCodec cutBody =
+      (Chain.new noCodec id [.html "prepend_child" [[100, 105, 118], [112]] none [36]] []).run htmlTokenize evalStandIn noCodec [cutBody.flatten] :=
+  chunk_invariant_final' evalStandIn id _ [] rfl (by intro f hf; simp at hf; subst hf; unfold V; decide) cutBody (by decide +kernel)
+
+/-- ... and the filter does act on that input: `<div><script><p></script><!--<p>--><p>$x</p></div>` -/
+theorem cut_example_acts :
+    (Chain.new noCodec id [.html "prepend_child" [[100, 105, 118], [112]] none [36]] []).run htmlTokenize evalStandIn noCodec [cutBody.flatten] =
+      [60, 100, 105, 118, 62, 60, 115, 99, 114, 105, 112, 116, 62, 60, 112, 62, 60, 47, 115, 99, 114, 105, 112, 116, 62] ++
+      [60, 33, 45, 45, 60, 112, 62, 45, 45, 62, 60, 112, 62, 36, 120, 60, 47, 112, 62, 60, 47, 100, 105, 118, 62] := by
   decide +kernel
 
 end Rio.C03
